@@ -13,6 +13,7 @@ RULE = ("all label layouts of length 1..L over 2..4 declared classes x the param
         "samples; distinct = distinct (wrapper, parameters, layout, labels)")
 
 REJECT = (AssertionError, NotImplementedError)
+CONTAINER = [None]  # None: python list; "torch" / "numpy": uint8 label containers
 _LIB = {}
 
 
@@ -43,6 +44,10 @@ def lib():
             return self.layout[idx]
 
         def getall_class(self):
+            if CONTAINER[0] is not None:
+                # labels stored compactly (uint8 tensor / array), as image datasets keep their targets
+                import numpy as _np
+                return torch.tensor(self.layout, dtype=torch.uint8) if CONTAINER[0] == "torch" else _np.array(self.layout, dtype=_np.uint8)
             return self.layout  # the internal list, as KDRandomClassWrapper.getall_class does
 
         def getshape_class(self):
@@ -195,8 +200,8 @@ def check(name, kw, lay, C, p, inner=None):
     np, torch = L["np"], L["torch"]
     n = len(lay)
     case = dict(wrapper=name, kwargs={k: (tolist(v) if hasattr(v, "tolist") else v) for k, v in kw.items()}, layout=list(lay), C=C,
-                inner=[inner[0], inner[1]] if inner else None)
-    tag = f"|{name}|{kwsig(name, kw)}" + (f"|on_top_of={inner[0]}" if inner else "")
+                inner=[inner[0], inner[1]] if inner else None, container=CONTAINER[0])
+    tag = f"|{name}|{kwsig(name, kw)}" + (f"|on_top_of={inner[0]}" if inner else "") + (f"|uint8_{CONTAINER[0]}_labels" if CONTAINER[0] else "")
     root_lay, root_C = lay, C
 
     def bad(kind, msg):
@@ -364,6 +369,24 @@ def task(items):
     L = lib()
     if items and items[0] == "binary":
         return binary_smoothing(p, items[1])
+    if items and items[0] == "containers":
+        # the wrappers that introduce the unlabeled marker / rewrite through the bulk labels, over uint8 label containers
+        for cont in ("torch", "numpy"):
+            CONTAINER[0] = cont
+            try:
+                for lay, C in items[1]:
+                    for name, kw, _ in configs(len(lay), C, lay):
+                        if name not in ("SemiWrapper", "SwapLabelWrapper", "ClassGroupsWrapper", "RandomSuperclassWrapper") or kw.get("seed", 0) != 0:
+                            continue
+                        n0 = len(p.violations)
+                        try:
+                            check(name, kw, lay, C, p)
+                        except Exception as e:
+                            p.violation(f"C16:exception:{type(e).__name__}|{name}|{kwsig(name, kw)}|uint8_{cont}_labels",
+                                        dict(wrapper=name, layout=list(lay), C=C, container=cont), f"{name} on uint8 {cont} labels {list(lay)}: {e!r}")
+            finally:
+                CONTAINER[0] = None
+        return p
     for lay, C in items:
         stacks = [None] + (inner_menu(C) if len(lay) <= STACK_MAXLEN[0] else [])
         for inner in stacks:
@@ -394,7 +417,8 @@ def run(run):
     STACK_MAXLEN[0] = 3 if run.tier == "quick" else 4
     lays = list(layouts(maxlen))
     chunk = 8 if run.tier == "quick" else 24
-    run.pmap(task, [lays[i:i + chunk] for i in range(0, len(lays), chunk)][::-1] + [("binary", maxlen)])
+    run.pmap(task, [lays[i:i + chunk] for i in range(0, len(lays), chunk)][::-1] + [("binary", maxlen)] +
+             [("containers", [l for l in lays if len(l[0]) in (2, 3) and l[1] in (2, 4)])])
     run.extra.update(bounds=dict(layout_len=f"1..{maxlen}", classes="2..4",
                                  stacked=f"every wrapper also on top of each class-count-changing wrapper {sorted({i[0] for i in inner_menu(4)})} "
                                          f"for layouts of length <= {STACK_MAXLEN[0]}"), layouts=len(lays))
@@ -417,5 +441,9 @@ def replay(case):
     if case["wrapper"] == "OverwriteClassesWrapper" and isinstance(kw.get("classes"), list):
         pass
     inner = case.get("inner")
-    check(case["wrapper"], kw, tuple(case["layout"]), case["C"], p, tuple(inner) if inner else None)
+    CONTAINER[0] = case.get("container")
+    try:
+        check(case["wrapper"], kw, tuple(case["layout"]), case["C"], p, tuple(inner) if inner else None)
+    finally:
+        CONTAINER[0] = None
     return None if not p.violations else "; ".join(m for _, m in list(p.violations.values())[:3])
